@@ -33,7 +33,13 @@ RULE = ("part 'validate': generated types (fields by for_types / for_value / ser
         "from BaseException only (asyncio.CancelledError from a really cancelled task, GeneratorExit from a closed generator, SystemExit from sys.exit(), KeyboardInterrupt inside an "
         "action, an own BaseException subclass), raised directly or met in situ; left unflushed they must fail check_for_errors / the decorated test with UnflushedTracebacks like any other, "
         "and flushing by class covers BaseException. In part 'capture' the test's logging step (conforming / deviating message, traceback) runs in the body, in tearDown() or in a cleanup the "
-        "body registered with addCleanup(): whatever the test logs before it is really over is judged exactly like logging in the body. non-trivial = deviation "
+        "body registered with addCleanup(): whatever the test logs before it is really over is judged exactly like logging in the body. "
+        "In part 'validate' some types take their for_types fields from ONE scratch list object that the application goes on changing in place (append a class for the next "
+        "field, overwrite an element, clear it, also after the last field; None included): what a field accepts is what the list held when the field was defined, so afterwards "
+        "Field.validate() and the log validation must still accept values of the declared classes and still reject values of classes that are in the list only since later (every value once the list is empty). "
+        "In part 'capture' ONE typed Message object (MessageType call, bind() results) is first written once or twice to an explicitly named other logger (a MemoryLogger or an own ILogger; before the "
+        "test or inside it) and then with write() without a logger inside the capture_logging-decorated test: that write belongs to the captured default logger, so exactly one such message is in the captured "
+        "log and a deviating one (wrong type / missing / extra field) fails the test with the validation error. non-trivial = deviation "
         "case or non-pass outcome; distinct by (field kind, deviation kind, message kind, exact deviation, field kinds of the type, position in the log) / (outcome, assertion, body, decorator)")
 ASSUMPTIONS = ["'reported' means validate()/check_for_errors raises (any exception class)",
                "default-logger identity is read from eliot._output._DEFAULT_LOGGER in addition to the behavioural probe"]
@@ -44,6 +50,8 @@ MSG_KINDS = ["message", "action_start", "action_success", "action_failed", "trac
 DEVIATIONS = ["none", "none", "missing", "extra", "wrong_type", "rejected", "unencodable"]
 EXTRA_NAMES = ["exception", "reason", "message_type", "action_status", "action_type", "traceback", "extra", "errno", "zzz", "Task_uuid", "task-uuid"]
 TYPE_POOL = [str, int, float, bool, list, dict, None]
+ENABLE_MUTATED_CLASS_LIST = True
+ENABLE_REWRITTEN_MESSAGE = True
 
 
 def plan(tier, seed):
@@ -99,13 +107,41 @@ class PortField(Field):
             raise ValidationError(input, "not a port number")
 
 
+def names(classes):
+    return "[%s]" % ", ".join("None" if c is None else c.__name__ for c in classes)
+
+
+def next_classes_in_place(rng, scratch):
+    """The application's scratch list is turned IN PLACE into the classes of the next field (append a class, overwrite an
+    element, or clear it and fill it again); returns how."""
+    unused = [t for t in TYPE_POOL if t not in scratch]
+    how = rng.choice(["append", "overwrite", "clear"]) if scratch else "clear"
+    if how == "append" and len(scratch) < 3 and unused:
+        scratch.append(rng.choice(unused))
+    elif how == "overwrite" and unused:
+        scratch[rng.randrange(len(scratch))] = rng.choice(unused)
+    else:
+        how = "clear"
+        scratch.clear()
+        scratch.extend(rng.sample(TYPE_POOL, rng.randint(1, 3)))
+    return how
+
+
 class FieldModel(object):
-    def __init__(self, rng, key):
+    def __init__(self, rng, key, scratch=None):
         self.key = key
         self.kind = rng.choice(FIELD_KINDS)
+        self.scratch = None  # the caller's own list object handed to for_types(), if the application keeps using it
+        self.later = []      # classes that are in that list only since after this field was defined
         if self.kind == "types":
-            self.classes = rng.sample(TYPE_POOL, rng.randint(1, 3))
-            self.field = Field.for_types(key, list(self.classes), "d")
+            if scratch is None:
+                self.classes = rng.sample(TYPE_POOL, rng.randint(1, 3))
+                self.field = Field.for_types(key, list(self.classes), "d")
+            else:
+                next_classes_in_place(rng, scratch)
+                self.classes = list(scratch)  # the declaration: what the list holds at the moment the field is defined
+                self.scratch = scratch
+                self.field = Field.for_types(key, scratch, "d")
         elif self.kind == "value":
             self.const = rng.choice([5, "fixed", 2.5, True, None, 0])
             self.field = Field.for_value(key, self.const, "d")
@@ -152,6 +188,8 @@ class FieldModel(object):
         if self.kind == "types":
             others = [t for t in TYPE_POOL if t not in self.classes]
             rng.shuffle(others)
+            # classes the application put into its list only after the definition come first
+            others.sort(key=lambda t: t not in self.later)
             for t in others:
                 v = value_of_type(rng, t)
                 if not self.accepts(v):
@@ -254,6 +292,7 @@ def one_validate(seed, i, res):
     rejected = False
     sig = None
     left = []  # ground truth: classes of the tracebacks this log wrote and never flushed
+    relisted = []  # for_types fields of this log whose list object the application changed after the definition
     if rng.random() < 0.25:
         # earlier life of the same logger: some conforming messages, a successful validate(), then reset()
         # (whatever validate() remembered must not outlive the reset)
@@ -271,7 +310,42 @@ def one_validate(seed, i, res):
     for j in range(nmsgs):
         mkind = rng.choice(MSG_KINDS)
         keys = rng.sample(gen.IDENT_KEYS, rng.randint(1, 3))
-        fms = [FieldModel(rng, k) for k in keys]
+        # a schema built field by field from ONE scratch list that the application keeps changing (also after the last field)
+        scratch = [] if (ENABLE_MUTATED_CLASS_LIST and rng.random() < 0.3) else None
+        fms = [FieldModel(rng, k, scratch) for k in keys]
+        if scratch is not None:
+            after = rng.choice(["next", "next", "clear", "leave"])
+            if after == "next":
+                next_classes_in_place(rng, scratch)  # (as if one more field were about to be defined)
+            elif after == "clear":
+                scratch.clear()
+            for fm in fms:
+                if fm.scratch is None or fm.classes == scratch:
+                    continue
+                # which values a declared field accepts is fixed by its definition: judged here on the field itself and below
+                # through the messages of the type
+                fm.later = [c for c in scratch if c not in fm.classes]
+                relisted.append("%r declared %s, the list object now holds %s" % (fm.key, names(fm.classes), names(scratch)))
+                c_ = res["counters"]
+                c_["fields_whose_class_list_changed_after_definition"] = c_.get("fields_whose_class_list_changed_after_definition", 0) + 1
+                c_["fields_whose_class_list_was_cleared"] = c_.get("fields_whose_class_list_was_cleared", 0) + int(not scratch)
+                v = fm.good(rng)
+                try:
+                    fm.field.validate(v)
+                except BaseException as e:
+                    problems.append("Field.for_types(%r, %s) rejects the conforming value %r after the application changed its list object to %s: %r" % (
+                        fm.key, names(fm.classes), v, names(scratch), e))
+                ok, v = fm.bad(rng)
+                if ok:
+                    of_later = any((v is None) if k is None else isinstance(v, k) for k in fm.later)
+                    c_["values_of_later_added_classes_judged"] = c_.get("values_of_later_added_classes_judged", 0) + int(of_later)
+                    try:
+                        fm.field.validate(v)
+                    except BaseException:
+                        pass
+                    else:
+                        problems.append("Field.for_types(%r, %s) accepts %r (%s) after the application changed its list object to %s" % (
+                            fm.key, names(fm.classes), v, "a class only added to the list afterwards" if of_later else "not a declared class", names(scratch)))
         values = {fm.key: fm.good(rng) for fm in fms}
         dev = deviation if j == dev_at else "none"
         applied = "none"
@@ -296,6 +370,8 @@ def one_validate(seed, i, res):
                 if ok:
                     values[fm.key] = v
                     applied, fkind = dev, fm.kind
+                    if any((v is None) if k is None else isinstance(v, k) for k in fm.later):
+                        res["counters"]["logged_values_of_later_added_classes"] = res["counters"].get("logged_values_of_later_added_classes", 0) + 1
                     break
         elif dev == "unencodable":
             cands = [fm for fm in fms if fm.kind in ("types", "value", "ser_validating", "extra_validator")]
@@ -427,16 +503,18 @@ def one_validate(seed, i, res):
             logger.validate()
         except BaseException as e:
             v_raised = e
+    note = " (for_types fields defined from a list the application changed afterwards: %s)" % "; ".join(relisted) if relisted else ""
     if not unflushed:
         if rejected and v_raised is None:
-            problems.append("%s accepted a log with deviation %s" % (used, sig))
+            problems.append("%s accepted a log with deviation %s%s" % (used, sig, note))
         if not rejected and v_raised is not None:
-            problems.append("%s rejected a conforming log: %r" % (used, v_raised))
+            problems.append("%s rejected a conforming log: %r%s" % (used, v_raised, note))
     res["evals"] += 1
     c = res["counters"]
     c["logs_validated"] = c.get("logs_validated", 0) + 1
     c["deviating_logs"] = c.get("deviating_logs", 0) + int(rejected)
     c["unflushed_traceback_logs"] = c.get("unflushed_traceback_logs", 0) + int(unflushed)
+    c["logs_of_types_with_relisted_fields"] = c.get("logs_of_types_with_relisted_fields", 0) + int(bool(relisted) and not unflushed)
     c["unflushed_and_invalid"] = c.get("unflushed_and_invalid", 0) + int(unflushed and rejected)
     c["unflushed_base_only_traceback_logs"] = c.get("unflushed_base_only_traceback_logs", 0) + int(base_only)
     if sig:
@@ -471,6 +549,16 @@ class RefusingEncoder(eliot.json.EliotJSONEncoder):
         raise TypeError("only plain JSON here")
 
 
+class OwnLogger(object):
+    """An application's own ILogger: keeps what it is given."""
+
+    def __init__(self):
+        self.written = []
+
+    def write(self, dictionary, serializer=None):
+        self.written.append(dictionary)
+
+
 def one_capture(seed, i, res, tape):
     rng = random.Random("%s:C14:c:%d" % (seed, i))
     outcome = rng.choice(["pass", "fail", "error", "skip", "skip_method", "baseexc"])
@@ -483,6 +571,7 @@ def one_capture(seed, i, res, tape):
     nested = rng.choice([0, 0, 1, 2]) if decorator == "capture" else 0  # decorated helpers called on the same TestCase instance
     ran = {"assertion": 0, "body": 0}
     MT = MessageType("c14:cap", [Field.for_types("n", [int], "")], "")
+    MT2 = MessageType("c14:cap2", [Field.for_types("n", [int], ""), Field.for_types("s", [str], "")], "")
 
     finishes_in_cleanup = rng.random() < 0.2  # the body starts an action that one of the test's own cleanups finishes
     # a test is not over when its body returns: what the body logs may as well be logged by tearDown() or by a cleanup the body registered
@@ -491,6 +580,39 @@ def one_capture(seed, i, res, tape):
         leaves_swapped = False  # (a body that replaces the default logger for good takes the late messages elsewhere)
     # class of the traceback the traceback bodies log: an ordinary one, a BaseException-only class raised directly, or one met in situ
     tb_how = rng.choice(["UserError", "UserError", "UserError"] + sorted(BASE_ONLY) + BASE_HOWS)
+
+    # ONE typed Message object written more than once: first to a logger object named explicitly (an audit trail of the
+    # application's own), later with write() and no logger inside the decorated test - that write belongs to the default logger
+    rewritten = ENABLE_REWRITTEN_MESSAGE and decorator == "capture" and body in ("valid", "invalid") and rng.random() < 0.5
+    rw_made = rng.choice(["call", "bind_all", "bind_some", "bind_after_write"])
+    rw_when = rng.choice(["before_test", "in_step"])
+    rw_dev = rng.choice(["wrong_type", "missing", "extra"]) if body == "invalid" else "none"
+    rw_first_writes = rng.randint(1, 2)
+    rw_other = MemoryLogger() if rng.random() < 0.7 else OwnLogger()
+    rw = {}
+
+    def rw_prepare():
+        """Make the Message object and write it to the explicitly named other logger."""
+        f = {"n": 1, "s": "x"}
+        if rw_dev == "wrong_type":
+            f["n"] = "no"
+        elif rw_dev == "missing":
+            del f["n"]
+        elif rw_dev == "extra":
+            f["zzz"] = 2
+        if rw_made == "call":
+            msg = MT2(**f)
+        elif rw_made == "bind_all":
+            msg = MT2().bind(**f)
+        elif rw_made == "bind_some":
+            msg = MT2(s=f.pop("s")).bind(**f)
+        else:
+            base = MT2(**f)
+            base.write(rw_other)
+            msg = base.bind()
+        for _ in range(rw_first_writes):
+            msg.write(rw_other)
+        rw["msg"] = msg
 
     def assert_cb(test, logger, *a, **kw):
         ran["assertion"] += 1
@@ -511,7 +633,11 @@ def one_capture(seed, i, res, tape):
 
     def do_logging(logger):
         ran["logged"] = ran.get("logged", 0) + 1
-        if body == "valid":
+        if rewritten:
+            if rw_when == "in_step":
+                rw_prepare()
+            rw["msg"].write()
+        elif body == "valid":
             MT.log(n=1) if decorator == "capture" else logger.write({"message_type": "c14:cap", "n": 1, "task_uuid": "u", "task_level": [1], "timestamp": 1.0}, MT._serializer)
         elif body == "invalid":
             MT.log(n="no") if decorator == "capture" else logger.write({"message_type": "c14:cap", "n": "no", "task_uuid": "u", "task_level": [1], "timestamp": 1.0}, MT._serializer)
@@ -590,6 +716,8 @@ def one_capture(seed, i, res, tape):
                 if outcome == "baseexc":
                     raise excs.UserBase("planned base exception")
 
+        if rewritten and rw_when == "before_test":
+            rw_prepare()
         prev = _output._DEFAULT_LOGGER
         result = unittest.TestResult()
         escaped = None
@@ -631,6 +759,19 @@ def one_capture(seed, i, res, tape):
             problems.append("test result successful=%s but expected %s (outcome %s, assertion %s, body %s logged from %s%s, %s)" % (
                 result.wasSuccessful(), not should_fail, outcome, assertion, body, where,
                 ", traceback of %s" % tb_how if body in ("traceback", "flushed_traceback") else "", decorator))
+        if rewritten and nested == 0 and ran.get("logged", 0) == 1 and lg is not None:
+            # the write() without a logger belongs to the captured default logger, however often the same Message object was
+            # written to an explicitly named logger before
+            desc = "a typed Message object (%s) written %d time(s) to an explicitly named logger (%s) and then with write() inside the decorated test (from %s)" % (
+                rw_made, rw_first_writes, "before the test" if rw_when == "before_test" else "in the test", where)
+            got2 = [m for m in lg.messages if m.get("message_type") == "c14:cap2"]
+            if len(got2) != 1:
+                problems.append("%s: the captured log holds %d such message(s), expected 1 (%s)" % (desc, len(got2), "conforming" if body == "valid" else "deviation " + rw_dev))
+            if body == "invalid" and not any("ValidationError" in tb for _, tb in result.errors + result.failures):
+                problems.append("%s with deviation %s did not fail the test with the validation error (successful=%s)" % (desc, rw_dev, result.wasSuccessful()))
+            c_ = res["counters"]
+            c_["rewritten_messages_in_decorated_tests"] = c_.get("rewritten_messages_in_decorated_tests", 0) + 1
+            c_["rewritten_deviating_messages_in_decorated_tests"] = c_.get("rewritten_deviating_messages_in_decorated_tests", 0) + int(body == "invalid")
         if ran.get("logged", 0) != 1:
             problems.append("the test's logging step (in %s) ran %d times" % (where, ran.get("logged", 0)))
         if skipped and len(result.skipped) != 1:
@@ -642,7 +783,8 @@ def one_capture(seed, i, res, tape):
     c["decorated_tests_run"] = c.get("decorated_tests_run", 0) + 1
     tb_sig = "/tb:" + tb_how if body in ("traceback", "flushed_traceback") and tb_how != "UserError" else ""
     res["sets"]["capture_signatures"].append("%s/%s/%s/%s/nested%d/%s%s%s%s" % (outcome, assertion, body, decorator, nested, encoder, "/swapped" if leaves_swapped else "",
-                                                                              "" if where == "body" else "/" + where, tb_sig))
+                                                                              "" if where == "body" else "/" + where, tb_sig) +
+                                         ("/rewritten:%s:%s:%s:%d:%s" % (rw_made, rw_when, rw_dev, rw_first_writes, type(rw_other).__name__) if rewritten else ""))
     if nested == 0 and ran.get("logged", 0) == 1:
         # reach of the widenings, counted only where the run is judged by its result
         if bad_log and where != "body":
@@ -678,6 +820,12 @@ def finalize(agg, tier):
         return "too few deviating logs / decorated tests / unflushed+invalid logs"
     if c.get("unflushed_base_only_traceback_logs", 0) < 5 or c.get("base_only_tracebacks_in_decorated_tests", 0) < 5:
         return "too few unflushed tracebacks of BaseException-only classes (logs / decorated tests)"
+    if ENABLE_MUTATED_CLASS_LIST and (c.get("fields_whose_class_list_changed_after_definition", 0) < 50 or c.get("fields_whose_class_list_was_cleared", 0) < 10
+                                      or c.get("values_of_later_added_classes_judged", 0) < 20 or c.get("logged_values_of_later_added_classes", 0) < 5
+                                      or c.get("logs_of_types_with_relisted_fields", 0) < 50):
+        return "too few for_types fields whose list object was changed after the definition (changed / cleared / values of later-added classes judged)"
+    if ENABLE_REWRITTEN_MESSAGE and (c.get("rewritten_messages_in_decorated_tests", 0) < 10 or c.get("rewritten_deviating_messages_in_decorated_tests", 0) < 5):
+        return "too few decorated tests that write an already written Message object to the default logger"
     if c.get("late_deviations_in_decorated_tests", 0) < 5:
         return "too few decorated tests that log their deviation from tearDown() or a cleanup"
     return None
